@@ -1,7 +1,7 @@
 (* MultiIO.v — decoding of C10 cases / encoding of observations for Multi.v. *)
 From Coq Require Import List Arith Bool.
 From M Require Import Sx Base Flat FlatIO Multi QueueIO.
-From M Require Hsm HsmIO.
+From M Require Hsm HsmIO FeaturesIO.
 Import ListNotations.
 
 Definition d_class (x : sx) : option mclass :=
@@ -151,6 +151,7 @@ Definition run_multi_case (x : sx) : sx :=
                          (seq 1 (length adds)))]
       | _, _, _ => L [N 0]
       end
+  | L (N 4 :: rest) => FeaturesIO.run_features_case (L rest)   (* state-feature mixins, several models: Features.v *)
   | L (N 2 :: rest) => run_queue_case (L rest)      (* queued machine, callbacks trigger / remove models: Queue.v *)
   | L [N 1; hx; d0x; d1x; cx] =>
       match d_bool hx, d_desc d0x, d_desc d1x, d_list d_hname cx with
